@@ -90,14 +90,14 @@ fn value_bytes(kind: u64, el: u64, m: usize, vs: u64) -> Vec<u8> {
 
 // ---- byte producers (reader / writer kinds): everything comes from the resource string
 #[derive(Clone)]
-struct ByteSpec { data: Vec<u8>, sizes: Vec<usize>, fail: Option<usize>, slp: u64, panic: bool, eof: bool }
+struct ByteSpec { data: Vec<u8>, sizes: Vec<usize>, fail: Option<usize>, slp: u64, panic: bool, eof: u8 }
 /// "b:<datahex>:<sizes . separated|->:<fail|->:<slp>:<err|panic>"
 fn parse_bytespec(res: &str) -> Option<ByteSpec> {
     let t: Vec<&str> = res.split(':').collect();
     if t.len() != 6 || t[0] != "b" { return None; }
     let sizes = if t[2] == "-" { vec![] } else { t[2].split('.').map(|s| ph(s).map(|v| v as usize)).collect::<Option<Vec<_>>>()? };
     let fail = if t[3] == "-" { None } else { Some(ph(t[3])? as usize) };
-    Some(ByteSpec { data: unhex(t[1]), sizes, fail, slp: ph(t[4])?, panic: t[5] == "panic", eof: t[5] == "eof" })
+    Some(ByteSpec { data: unhex(t[1]), sizes, fail, slp: ph(t[4])?, panic: t[5] == "panic", eof: match t[5] { "eof" => 1, "pipe" => 2, "reset" => 3, "inval" => 4, _ => 0 } })
 }
 /// the same cut as the model's `segment`: each size takes what is left, the rest is one final piece
 fn segments(spec: &ByteSpec) -> Vec<Vec<u8>> {
@@ -111,8 +111,8 @@ fn nap(r: &mut Rng, slp: u64) { if slp != 0 { let us = r.below(3000); if us > 30
 
 /// the error a failing producer returns: any kind is a failure of the stream (`eof`: the kind a
 /// `read_exact` on a truncated source reports)
-fn injected(eof: bool, what: &str) -> io::Error { if eof { io::Error::new(io::ErrorKind::UnexpectedEof, what.to_string()) } else { io::Error::other(what.to_string()) } }
-struct SegReader { segs: std::collections::VecDeque<Vec<u8>>, off: usize, fail: bool, panic: bool, eof: bool, rng: Rng, slp: u64 }
+fn injected(eof: u8, what: &str) -> io::Error { use io::ErrorKind as K; match eof { 1 => io::Error::new(K::UnexpectedEof, what.to_string()), 2 => io::Error::new(K::BrokenPipe, what.to_string()), 3 => io::Error::new(K::ConnectionReset, what.to_string()), 4 => io::Error::new(K::InvalidData, what.to_string()), _ => io::Error::other(what.to_string()) } }
+struct SegReader { segs: std::collections::VecDeque<Vec<u8>>, off: usize, fail: bool, panic: bool, eof: u8, rng: Rng, slp: u64 }
 impl Read for SegReader {
     fn read(&mut self, out: &mut [u8]) -> io::Result<usize> {
         if out.is_empty() { return Ok(0); }
@@ -319,7 +319,7 @@ fn unzstd_prefix(stream: &[u8]) -> Vec<u8> {
     out
 }
 
-fn raw_exchange(c: &Case, peer: &mut RawPeer) -> Result<(Vec<String>, String, Vec<String>, String, Vec<u8>), String> {
+fn raw_exchange(c: &Case, peer: &mut RawPeer) -> Result<(Vec<String>, String, Vec<String>, String, Vec<u8>, String), String> {
     let mut rng = Rng::new(c.slp ^ 0x5151);
     // first stream: next until last / error, then once more
     let sid = peer.open(c)?;
@@ -337,11 +337,13 @@ fn raw_exchange(c: &Case, peer: &mut RawPeer) -> Result<(Vec<String>, String, Ve
     let after_end = peer.next(sid)?;
     // second stream: a few nexts, cancel, next
     let sid2 = peer.open(c)?;
+    // the finished stream's id stays dead while another stream is open (ids are not reused)
+    let after_end2 = peer.next(sid)?;
     let mut cp = Vec::new();
     for _ in 0..c.cj { let r = peer.next(sid2)?; let done = !r.starts_with("c0."); cp.push(r); if done { break; } }
     peer.cancel(sid2)?;
     let after_cancel = peer.next(sid2)?;
-    Ok((pulls, after_end, cp, after_cancel, stream))
+    Ok((pulls, after_end, cp, after_cancel, stream, after_end2))
 }
 
 fn run_inner(c: &Case) -> Result<String, String> {
@@ -361,7 +363,7 @@ fn run_inner(c: &Case) -> Result<String, String> {
         let raw = if c.pull == 2 { Raw::Ws(RawWs::connect(lv.sv.ws)?) } else { Raw::Tcp(RawTcp::connect(lv.sv.tcp).map_err(|e| e.to_string())?) };
         *slot = Some(RawPeer { raw, id: 100 });
     }
-    let (pulls, after_end, cp, after_cancel, stream) = match raw_exchange(c, slot.as_mut().unwrap()) {
+    let (pulls, after_end, cp, after_cancel, stream, after_end2) = match raw_exchange(c, slot.as_mut().unwrap()) {
         Ok(x) => x,
         Err(e) => { *slot = None; return Err(e); }
     };
@@ -370,7 +372,7 @@ fn run_inner(c: &Case) -> Result<String, String> {
     let (vec, typed) = high_level(c, lv);
     // development aid: where the time of a case goes (ignored by the driver)
     let timing = if std::env::var("C09_TIMING").is_ok() { format!(" t={}/{}/{}", t1.as_micros(), t2.as_micros(), t0.elapsed().as_micros()) } else { String::new() };
-    Ok(format!("pulls={} ae={} cp={} ac={} plain={} vec={} typed={}{}", pulls.join("|"), after_end, if cp.is_empty() { "-".into() } else { cp.join("|") }, after_cancel, plain, vec, typed, timing))
+    Ok(format!("pulls={} ae={} ae2={} cp={} ac={} plain={} vec={} typed={}{}", pulls.join("|"), after_end, after_end2, if cp.is_empty() { "-".into() } else { cp.join("|") }, after_cancel, plain, vec, typed, timing))
 }
 
 // ---- two connections pulling the same stream id: the `next` that is already queued behind the
@@ -432,7 +434,7 @@ fn run_case(line: &str) -> String {
         Some(Case { kind: g("kind")?, el: g("el")?, pull: g("pull")?, n: g("n")?, d: g("d")?, z: g("z")? != 0, data: unhex(f.get("data")?), w: f.get("w")?.clone(), f: f.get("f")?.clone(), fk: f.get("fk").cloned().unwrap_or_else(|| "err".into()), cj: g("cj")?, slp: g("slp")?, vm: g("vm")?, vs: g("vs")? })
     })();
     let Some(c) = parsed else { return "crash=badcase:parse".into() };
-    if c.n == 0 || c.kind > 4 || c.pull > 2 || (c.fk != "err" && c.fk != "panic" && c.fk != "eof") { return "crash=badcase:range".into(); }
+    if c.n == 0 || c.kind > 4 || c.pull > 2 || !["err", "panic", "eof", "pipe", "reset", "inval"].contains(&c.fk.as_str()) { return "crash=badcase:range".into(); }
     static HOOK: std::sync::Once = std::sync::Once::new();
     static LAST: Mutex<String> = Mutex::new(String::new());
     HOOK.call_once(|| std::panic::set_hook(Box::new(|i| { *LAST.lock().unwrap_or_else(|e| e.into_inner()) = i.to_string(); })));
@@ -451,7 +453,7 @@ impl Gen {
         let ws = if w.is_empty() { "-".to_string() } else { w.iter().map(|x| hx(*x)).collect::<Vec<_>>().join(".") };
         for pull in pulls {
             self.out.push(((kind, el, n, d, z), format!("kind={} el={} pull={} n={} d={} z={} data={} w={} f={} fk={} cj={} slp={} vm={} vs={}",
-                kind, el, pull, hx(n), hx(d), z as u8, hex(data), ws, f.map(|(k, _)| hx(k)).unwrap_or_else(|| "-".into()), if matches!(f, Some((_, true))) { "panic" } else if self.k % 2 == 0 { "eof" } else { "err" }, hx(cj), hx(slp), hx(vm), hx(vs))));
+                kind, el, pull, hx(n), hx(d), z as u8, hex(data), ws, f.map(|(k, _)| hx(k)).unwrap_or_else(|| "-".into()), if matches!(f, Some((_, true))) { "panic" } else { ["err", "eof", "pipe", "reset", "inval"][(self.k % 5) as usize] }, hx(cj), hx(slp), hx(vm), hx(vs))));
         }
     }
 }
@@ -533,6 +535,9 @@ fn gen_cases(seed: u64, thorough: bool) -> Vec<String> {
             } } }
         }
     }
+    // 4b. a large incompressible payload through the compressing producers, handed over as 3 bytes
+    // and then the rest (the compressor sees pieces that do not line up with its own block size)
+    for kind in [3u64, 4] { let data = rng.bytes(300_003); g.push(kind, 0, 4096, 2, true, &data, &[3], None, 0, 0, 0); }
     // 5. producer and consumer slowed by random sleeps
     for i in 0..(if thorough { 200 } else { 40 }) {
         let n = *rng.pick(&[1u64, 2, 3, 8]);
